@@ -11,7 +11,7 @@ FN = 'data_structures::fmindex::FMIndexable::backward_search'
 
 def src_local(b, o):
     """local an operand is a (chain of) plain copy of"""
-    pl = o.get('c') or o.get('m')
+    pl = _through_tuple(b, o.get('c') or o.get('m'))
     seen = set()
     while pl is not None and 'pj' not in pl and pl['l'] not in seen:
         l = pl['l']
@@ -22,7 +22,19 @@ def src_local(b, o):
         if sd is None or sd[0] != 'stmt' or sd[3]['r']['k'] != 'use':
             return l
         pl = sd[3]['r']['o'].get('c') or sd[3]['r']['o'].get('m')
+        pl = _through_tuple(b, pl)
     return None
+
+
+def _through_tuple(b, pl):
+    """`(a, b).k` of a tuple built once is the k-th operand"""
+    if pl is not None and len(pl.get('pj', [])) == 1 and isinstance(pl['pj'][0], dict) and 'f' in pl['pj'][0]:
+        sd = b.single_def(pl['l'])
+        if sd is not None and sd[0] == 'stmt' and sd[3]['r']['k'] == 'agg' and sd[3]['r'].get('ak') == 'tuple' and \
+                pl['pj'][0]['f'] < len(sd[3]['r']['ops']):
+            o = sd[3]['r']['ops'][pl['pj'][0]['f']]
+            return o.get('c') or o.get('m')
+    return pl
 
 
 def plus_one_of(b, o):
@@ -68,12 +80,14 @@ def run(facts, rep, ctx):
     rep.analysed_body(b)
     # ---- roles from the result aggregates
     aggs = {}
+    all_aggs = {}
     for bb in b.reachable(0):
         for i, s in enumerate(b.stmts(bb)):
             if s['k'] == 'assign' and s['r']['k'] == 'agg' and s['r'].get('adt', '').endswith('BackwardSearchResult'):
                 aggs[s['r']['variant']] = (bb, s)
+                all_aggs.setdefault(s['r']['variant'], []).append(bb)
     key = 'backward_search|result-variants'
-    if set(aggs) != {'Complete', 'Partial', 'Absent'}:
+    if set(aggs) != {'Complete', 'Partial', 'Absent'} or len(all_aggs.get('Complete', [])) != 1 or len(all_aggs.get('Partial', [])) != 1:
         rep.bad(rule, key, '%s:%s' % (b.file, b.line), 'expected Complete, Partial and Absent results, found %s' % sorted(aggs))
         return
     rep.ok(rule, key, '%s:%s' % (b.file, b.line), 'three result variants')
@@ -126,8 +140,8 @@ def run(facts, rep, ctx):
     key = 'backward_search|previous-interval-saved-before-update'
     ok = len(sl) == 1 and len(sr_) == 1 and len(spl) == 1 and len(spr) == 1
     if ok:
-        ok = spl[0][2]['r']['k'] == 'use' and src_local(b, spl[0][2]['r']['o']) == l and \
-            spr[0][2]['r']['k'] == 'use' and src_local(b, spr[0][2]['r']['o']) == r
+        ok = spl[0][2]['r']['k'] == 'use' and src_local(b, spl[0][2]['r']['o']) in (l,) and \
+            spr[0][2]['r']['k'] == 'use' and src_local(b, spr[0][2]['r']['o']) in (r,)
         before = all((x[0] == y[0] and x[1] < y[1]) or (x[0] != y[0] and b.dominates(x[0], y[0]))
                      for x in (spl[0], spr[0]) for y in (sl[0], sr_[0]))
         ok = ok and before
@@ -218,8 +232,12 @@ def run(facts, rep, ctx):
                         s['r']['k'] == 'use' and s['r']['o'].get('k', {}).get('v') == 0 and b.is_user(s['p']['l']):
                     flag = s['p']['l']
         after = [x for x in (sl + sr_) if not b.dominates(x[0], gbb)]
-        if leaves and inc_ok and pinc == {('n',): 1, (): 1} and flag is not None and not after:
-            rep.ok(rule, key, b.loc(gbb), 'l > r: flag cleared, loop left, symbol not counted; else matched += 1')
+        # without a flag the give-up edge must not be able to reach the Complete result at all (it returns on its own)
+        cb0 = aggs['Complete'][0]
+        direct = flag is None and cb0 not in eng_gd.region(b, empty_t)
+        if leaves and inc_ok and pinc == {('n',): 1, (): 1} and (flag is not None or direct) and not after:
+            rep.ok(rule, key, b.loc(gbb), 'l > r: %s, loop left, symbol not counted; else matched += 1' % (
+                'flag cleared' if flag is not None else 'returns Partial/Absent directly'))
             # ---- classification
             key2 = 'backward_search|classification'
             mn = b.local_name(mlen) or ''
@@ -243,17 +261,25 @@ def run(facts, rep, ctx):
                     while isinstance(e0, tuple) and e0[0] == 'un' and e0[1] == 'Not':
                         neg = not neg
                         e0 = strip(e0[2])
-                    if e0 == ('local', flag, b.local_name(flag)):
+                    if flag is not None and e0 == ('local', flag, b.local_name(flag)):
                         te, fe = (g['f'], g['t']) if neg else (g['t'], g['f'])
                         if b.edge_dominates((g['bb'], te), target):
                             out.add('complete')
                         if b.edge_dominates((g['bb'], fe), target):
                             out.add('incomplete')
+                if flag is None:
+                    # flag-less form: completeness is positional - behind the give-up edge or unreachable from it
+                    if b.edge_dominates((gbb, empty_t), target):
+                        out.add('incomplete')
+                    elif target not in eng_gd.region(b, empty_t):
+                        out.add('complete')
                 return out
-            cb, ps_, ab = aggs['Complete'][0], aggs['Partial'][0], aggs['Absent'][0]
-            fc, fp, fa = facts_at(cb), facts_at(ps_), facts_at(ab)
-            okc = {'matched>0', 'complete'} <= fc and {'matched>0', 'incomplete'} <= fp and 'matched=0' in fa and \
-                not ({'matched=0', 'incomplete'} & fc) and not ({'matched=0', 'complete'} & fp) and 'matched>0' not in fa
+            cb, ps_ = aggs['Complete'][0], aggs['Partial'][0]
+            fc, fp = facts_at(cb), facts_at(ps_)
+            fas = [facts_at(x) for x in all_aggs['Absent']]
+            okc = {'matched>0', 'complete'} <= fc and {'matched>0', 'incomplete'} <= fp and \
+                all('matched=0' in fa and 'matched>0' not in fa for fa in fas) and \
+                not ({'matched=0', 'incomplete'} & fc) and not ({'matched=0', 'complete'} & fp)
             gm = [(cb,)]
             if okc:
                 rep.ok(rule, key2, b.loc(gm[0][0]), 'matched > 0 & complete -> Complete; matched > 0 & !complete -> Partial; else Absent')
